@@ -120,6 +120,7 @@ pub(crate) fn judge(sim: &Sim, outcome: &RunOutcome) -> Vec<(String, String)> {
     for (p, reason) in sim.bans() {
         let code = reason.split(':').next().unwrap_or("").to_owned();
         bad.push((format!("honest-peer-banned/{}", code), format!("peer {} banned: {}", p, reason)));
+        let _ = &code;
     }
     for (p, reason) in sim.c().out.disconnects() {
         bad.push(("honest-peer-disconnected".into(), format!("peer {} disconnected: {}", p, reason)));
@@ -291,6 +292,22 @@ pub(crate) fn items(thorough: bool) -> Vec<Item> {
         seeds: vec![1, 2],
         bound: 0,
     });
+    // growth by exactly N+1, N+2, 2N, 2N+1 blocks after a proof (few or single samples)
+    for (name, steps) in [("gapN+1", vec![14u64, 18, 23]), ("gapN+2", vec![15u64, 20, 27]), ("gap2N", vec![16u64, 22, 29])] {
+        v.push(Item {
+            name: name.into(),
+            chain_len: 30,
+            plan: plan(7, &[16, 24, 36, 24, 16]),
+            fork: None,
+            peers: vec![(1, 0, 10)],
+            phases: steps.into_iter().map(Phase::Grow).collect(),
+            last_n: n,
+            mmr_epoch: 0,
+            with_scripts: false,
+            seeds: if thorough { (1..=12).collect() } else { vec![1, 2, 3, 4] },
+            bound: 0,
+        });
+    }
     // a fork shallower than last-N: both peers move to the heavier branch
     v.push(Item {
         name: "shallow-fork".into(),
@@ -429,7 +446,7 @@ pub(crate) fn run(opts: &Opts, report: &mut Report) {
                     for (class, items) in groups {
                         let dev_kinds: Vec<String> = devs.iter().map(|(_, d)| format!("{:?}", d).split('(').next().unwrap_or("").to_owned()).collect();
                         report.violation(
-                            format!("{}/{}", class, dev_kinds.join("+")),
+                            format!("{}/{}/{}", class, item.name, dev_kinds.join("+")),
                             format!("[{}] {}", name, items[0]),
                             json!({"scenario": name, "deviations": explore::devs_json(devs), "all": items.iter().take(6).collect::<Vec<_>>(), "trace": traced.trace.iter().rev().take(60).rev().collect::<Vec<_>>()}),
                         );
